@@ -53,6 +53,8 @@ Proof.
   - exfalso. exact (H1 p g eq_refl).
   - exfalso. exact (H2 p g eq_refl).
   - apply (advance_keeps cfg dt s 0%nat).
+  - unfold dcloseq. destruct (negb _); reflexivity.
+  - unfold dregister. destruct (_ && _); reflexivity.
 Qed.
 
 Lemma cinv_aop : forall cfg cs o cs' evs, CInv cfg cs ->
